@@ -3,7 +3,7 @@ import copy
 import html
 import re
 
-from harness.core import Property
+from harness.core import Property, CaseTimeout
 from harness.props import markup_common as mc
 from harness.props.markup_common import S, B, I
 
@@ -260,6 +260,8 @@ def render_all(case):
             res["out"] = str(out)
         except AssertionError:
             raise
+        except CaseTimeout:
+            raise
         except Exception as e:  # noqa
             res["err"] = type(e).__name__
             names.append(None)
@@ -513,6 +515,7 @@ class C12(Property):
             "posted pairs to from_flat.  non-trivial = some control posts a pair or is deliberately unchecked; distinct = distinct "
             "canonical case JSON")
     quick_n = 40000
+    case_timeout = 60      # the machine is shared: a stalled worker must not look like a hang of the library
     thorough_n = 300000
 
     # ------------------------------------------------------------------ cases
